@@ -39,7 +39,9 @@ fn spec_of(c: &DerCase) -> SettingsSpec {
     let mut s = SettingsSpec::faithful();
     s.root = "root".into();
     s.derives_all = if c.no_global_derive { vec![] } else { vec!["::g::Clone".into()] };
-    s.attrs_all = vec!["#[g]".into()];
+    // every attribute has the same attribute PATH (`m`) and differs in its arguments only: attributes are kept
+    // apart by their whole token string, as `#[codec(crate = ..)]` next to `#[codec(dumb_trait_bound)]` must be
+    s.attrs_all = vec!["#[m(g)]".into()];
     if !c.compact_as {
         s.compact_as = None;
     }
@@ -48,13 +50,13 @@ fn spec_of(c: &DerCase) -> SettingsSpec {
         match r {
             Reg::Nothing => {}
             Reg::SpecDerive => s.derives_for.push((p, vec![format!("::s::D{i}")], false)),
-            Reg::SpecAttr => s.attrs_for.push((p, vec![format!("#[s{i}]")], false)),
+            Reg::SpecAttr => s.attrs_for.push((p, vec![format!("#[m(s{i})]")], false)),
             Reg::RecDerive => s.derives_for.push((p, vec![format!("::r::D{i}")], true)),
-            Reg::RecAttr => s.attrs_for.push((p, vec![format!("#[r{i}]")], true)),
+            Reg::RecAttr => s.attrs_for.push((p, vec![format!("#[m(r{i})]")], true)),
             Reg::SpecAndRec => {
                 s.derives_for.push((p.clone(), vec![format!("::s::D{i}")], false));
                 s.derives_for.push((p.clone(), vec![format!("::r::D{i}")], true));
-                s.attrs_for.push((p, vec![format!("#[r{i}]")], true));
+                s.attrs_for.push((p, vec![format!("#[m(r{i})]")], true));
             }
         }
     }
@@ -268,9 +270,9 @@ pub fn check_case(c: &DerCase, ctx: &mut Ctx) {
         let class = |x: &str| -> &'static str {
             if x.contains("CompactAs") {
                 "compact-as"
-            } else if x.starts_with("::r::") || x.starts_with("#[r") {
+            } else if x.starts_with("::r::") || x.starts_with("#[m(r") {
                 "recursive"
-            } else if x.starts_with("::s::") || x.starts_with("#[s") {
+            } else if x.starts_with("::s::") || x.starts_with("#[m(s") {
                 "specific"
             } else {
                 "global"
